@@ -35,7 +35,8 @@ def gen_sevset(rng):
         return "*", set(range(6))
     items = []
     sset = set()
-    for _ in range(rng.choice([1, 1, 1, 2, 3])):
+    # now and then a long, redundant list (keys of 64 characters and more)
+    for _ in range(rng.choice([1, 1, 1, 2, 3]) if rng.random() < 0.9 else rng.choice([8, 10, 12, 14])):
         op = rng.choice(["", "", "=", "<", "<=", ">", ">="])
         k = rng.randrange(6)
         items.append(op + randcase(rng, SEVS[k]))
@@ -61,6 +62,13 @@ def build_section(items, vt):
     entries = []
     routes = {}
     for it in items:
+        if it.get("odd"):
+            # a value that is neither a string nor a list of strings names no destination: the entry routes nothing
+            if it["odd"] == "pair":
+                entries.append((it["key"].encode(), ("inaddr", ("file:" + it["ds"][0]).encode(), ("file:" + it["ds"][-1]).encode())))
+            else:
+                entries.append((it["key"].encode(), ("obj", [(b"x", ("str", ("file:" + it["ds"][0]).encode()))])))
+            continue
         if it["as_list"] or len(it["ds"]) != 1:
             node = ("list", [("file:" + d).encode() for d in it["ds"]])
         else:
@@ -93,6 +101,8 @@ def gen_items(rng, dests):
         nd = rng.choice([1, 1, 2, 3, 0] if rng.random() < 0.5 else [1, 1, 2, 3])
         ds = [rng.choice(dests) for _ in range(nd)]
         items.append(dict(key=key, valid=valid, fac=fac, sset=sset, ds=ds, as_list=not (nd == 1 and rng.random() < 0.6)))
+        if ds and rng.random() < 0.08:
+            items[-1]["odd"] = rng.choice(["pair", "obj"])
     vt = rng.choice([b"true", b"false"]) if rng.random() < 0.3 else None
     return items, vt
 
@@ -104,6 +114,8 @@ def mutate_items(rng, items, dests):
     if not out:
         return out
     for it in rng.sample(out, rng.randint(1, len(out))):
+        if it.get("odd"):
+            continue
         how = rng.random()
         if not it["ds"] or how < 0.4:
             it["ds"] = [rng.choice(dests) for _ in range(rng.choice([1, 1, 2]))]
